@@ -56,6 +56,23 @@ pub fn run(_params: &[i64], ops: &Rows, mon: &mut Mon) -> Rows {
                 let s: Vec<u8> = r0.as_ref().as_bytes().to_vec();
                 if s != expect { mon.fail(format!("case{} ReprCStr reads back {:?} expected {:?}", k, s, expect)); }
                 if !(r0 == r1) || h(&r0) != h(&r1) { mon.fail(format!("case{} ReprCStr copy differs", k)); }
+                // the borrowed type hashes and compares by content too: like the text itself, like the owned string (Borrow<ReprCStr> makes maps keyed by
+                // ReprCString answer look-ups by ReprCStr, which needs equal hashes), and differently-contented strings are different
+                let owned = ReprCString::from(&expect[..]);
+                let text = std::str::from_utf8(&expect).unwrap_or("");
+                if std::str::from_utf8(&expect).is_ok() && (h(&r0) != h(&text) || h(&r0) != h(&owned)) { mon.fail(format!("case{} ReprCStr hashes differently from the same text / from the owned string with the same content", k)); }
+                {
+                    use std::borrow::Borrow;
+                    let mut set = std::collections::HashSet::new();
+                    set.insert(ReprCString::from(&expect[..]));
+                    let key: &ReprCStr = owned.borrow();
+                    if !set.contains(key) || !set.contains(&r0) { mon.fail(format!("case{} a set of ReprCString does not find its element through a ReprCStr key", k)); }
+                    let mut other = expect.clone(); other.push(b'x');
+                    let oc = std::ffi::CString::new(other).unwrap();
+                    let r2 = ReprCStr::from(oc.as_c_str());
+                    if r0 == r2 || set.contains(&r2) { mon.fail(format!("case{} ReprCStr equal to a longer string", k)); }
+                }
+                drop(owned);
                 let mut r = vec![1, 0, s.len() as i64 + 1, s.len() as i64 + 1, 1, s.len() as i64];
                 r.extend(s.iter().map(|b| *b as i64));
                 r
